@@ -211,6 +211,16 @@ ReadDoc(d) ==
      ELSE IF Len(p.sol.vs) # Len(d.nodes) \/ (\E i \in 1..Len(d.nodes) : p.sol.vs[i].m # d.tt[i]) THEN [ok |-> 0]
      ELSE [ok |-> 1, sol |-> [vs |-> p.sol.vs, cs |-> p.sol.cs, pp |-> d.nodes, f |-> p.sol.f]]
 
+(* parse - mutate - parse: parsing is a function of the text alone.  Whatever is done to the id an earlier parse of
+   the text returned (here: one field assigned), parsing the same text again gives the id of the text: it equals
+   Normalize(f), prints as the text, and differs from the mutated first result. *)
+ReparseLaw(f, fld, b) ==
+  LET x  == PrintId(f)
+      p1 == Parse(x, f.ver).id
+      m  == [p1 EXCEPT ![fld] = Normalize(b)[fld]]             \* the first result after the assignment
+      p2 == Parse(x, f.ver).id
+  IN p2 = Normalize(f) /\ PrintId(p2) = x /\ (m # p1 => p2 # m)
+
 (* ---- laws checked by TLC on the specification itself ---- *)
 GrammarLaw(id)   == Accepts(IdGrammar, PrintId(id))
 GrammarTight(id) == ~Accepts(IdGrammar, Tail(PrintId(id))) /\ ~Accepts(IdGrammar, PrintId(id) \o <<Sep("-")>>)
